@@ -496,6 +496,8 @@ enum GK {
     Big { points: usize, contours: usize, instr: Vec<u8> },
     /// composite with glyph instructions
     CompositeI(Vec<u16>, Vec<u8>),
+    /// the three-point simple glyph with its own glyph program
+    SimpleI(Vec<u8>),
 }
 fn big_simple_glyph(points: usize, contours: usize, instr: &[u8]) -> Vec<u8> {
     let points = points.clamp(1, 65536);
@@ -574,6 +576,7 @@ fn glyf_font(glyphs: &[GK], glyph_instr: &[u8], fpgm: &[u8], prep: &[u8], cvt_le
             GK::Composite(c) => glyf.extend_from_slice(&composite_glyph(c)),
             GK::Big { points, contours, instr } => glyf.extend_from_slice(&big_simple_glyph(*points, *contours, instr)),
             GK::CompositeI(c, instr) => glyf.extend_from_slice(&composite_glyph_instr(c, instr)),
+            GK::SimpleI(instr) => glyf.extend_from_slice(&simple_glyph(instr)),
         }
     }
     loca.extend_from_slice(&(glyf.len() as u32).to_be_bytes());
@@ -962,7 +965,7 @@ fn gk_term(g: &GK) -> String {
         GK::Empty => "GEmpty".into(),
         GK::Simple => "GSimple".into(),
         GK::Composite(c) | GK::CompositeI(c, _) => format!("GComposite {}", czlist(c.iter().map(|v| *v as i128))),
-        GK::Big { .. } => "GSimple".into(),
+        GK::Big { .. } | GK::SimpleI(_) => "GSimple".into(),
     }
 }
 struct NullPen;
@@ -3420,6 +3423,150 @@ fn exercise_colr_chain(cx: &mut Ctx, c: &ColrChain) {
     }
 }
 
+// ---- graphics-state family: every state-setting instruction x boundary operands x every consumer of that state ----
+/// (name, opcode, number of operands)
+const STATE_SETTERS: &[(&str, u8, u8)] = &[
+    ("sds", 0x5F, 1), ("sdb", 0x5E, 1), ("sloop", 0x17, 1), ("smd", 0x1A, 1), ("scvtci", 0x1D, 1), ("ssw", 0x1F, 1), ("sswci", 0x1E, 1),
+    ("sround", 0x76, 1), ("s45round", 0x77, 1), ("szp0", 0x13, 1), ("szp1", 0x14, 1), ("szp2", 0x15, 1), ("szps", 0x16, 1),
+    ("srp0", 0x10, 1), ("srp1", 0x11, 1), ("srp2", 0x12, 1), ("scanctrl", 0x85, 1), ("scantype", 0x8D, 1),
+    ("instctrl", 0x8E, 2), ("spvfs", 0x0A, 2), ("sfvfs", 0x0B, 2), ("ws", 0x42, 2), ("wcvtp", 0x44, 2), ("wcvtf", 0x70, 2),
+];
+const STATE_VALUES: &[i64] = &[0, 1, -1, 2, 6, 7, -7, 63, 64, 255, 256, 1000, 32767, -32768, 2_097_088_000, -2_097_088_000];
+fn push_value(v: i64) -> Vec<u8> {
+    if (-32768..=32767).contains(&v) {
+        let mut b = vec![0xB8];
+        b.extend_from_slice(&(v as i16).to_be_bytes());
+        b
+    } else {
+        let mut b = huge_count_code();
+        if v < 0 {
+            b.push(0x65); // NEG
+        }
+        b
+    }
+}
+/// instructions that consume graphics state, each with plausible operands for the 3-point glyph / cvt of 4
+fn state_consumers() -> Vec<(String, Vec<u8>)> {
+    let mut v: Vec<(String, Vec<u8>)> = vec![];
+    // DELTAPn / DELTACn with one exception for each of the 16 relative ppem values (one of them is taken)
+    for (name, op) in [("deltap1", 0x5Du8), ("deltap2", 0x71), ("deltap3", 0x72), ("deltac1", 0x73), ("deltac2", 0x74), ("deltac3", 0x75)] {
+        let mut b = vec![0x40u8, 33];
+        for nib in 0..16u8 {
+            b.push((nib << 4) | 0x0F);
+            b.push(1);
+        }
+        b.push(16);
+        b.push(op);
+        v.push((name.into(), b));
+    }
+    let pb = |vals: &[u8], ops: &[u8]| -> Vec<u8> {
+        let mut b = vec![0xB0 + vals.len() as u8 - 1];
+        b.extend_from_slice(vals);
+        b.extend_from_slice(ops);
+        b
+    };
+    let simple: &[(&str, Vec<u8>)] = &[
+        ("shp0", pb(&[1, 2, 0], &[0x32])), ("shp1", pb(&[1, 2, 0], &[0x33])), ("ip", pb(&[1, 2, 0], &[0x39])), ("alignrp", pb(&[1, 2, 0], &[0x3C])),
+        ("flippt", pb(&[1, 2, 0], &[0x80])), ("shpix", pb(&[1, 2, 64], &[0x38])), ("mdap0", pb(&[1], &[0x2E])), ("mdap1", pb(&[1], &[0x2F])),
+        ("miap0", pb(&[1, 1], &[0x3E])), ("miap1", pb(&[1, 1], &[0x3F])), ("mdrp-c0", pb(&[1], &[0xC0])), ("mdrp-c4", pb(&[2], &[0xC4])),
+        ("mdrp-c8", pb(&[1], &[0xC8])), ("mdrp-df", pb(&[2], &[0xDF])), ("mirp-e0", pb(&[1, 1], &[0xE0])), ("mirp-e4", pb(&[2, 1], &[0xE4])),
+        ("mirp-e8", pb(&[1, 2], &[0xE8])), ("mirp-ff", pb(&[2, 3], &[0xFF])), ("msirp0", pb(&[1, 64], &[0x3A])), ("msirp1", pb(&[2, 64], &[0x3B])),
+        ("round", pb(&[33], &[0x68])), ("nround", pb(&[33], &[0x6C])), ("alignpts", pb(&[1, 2], &[0x27])), ("isect", pb(&[0, 1, 2, 1, 0], &[0x0F])),
+        ("shc0", pb(&[0], &[0x34])), ("shc1", pb(&[0], &[0x35])), ("shz0", pb(&[1], &[0x36])), ("shz1", pb(&[0], &[0x37])), ("iup-y", vec![0x30]), ("iup-x", vec![0x31]),
+        ("gc0", pb(&[1], &[0x46])), ("gc1", pb(&[1], &[0x47])), ("md0", pb(&[1, 2], &[0x49])), ("md1", pb(&[1, 2], &[0x4A])), ("scfs", pb(&[1, 64], &[0x48])),
+        ("mppem-mps", vec![0x4B, 0x4C]), ("getinfo", pb(&[255], &[0x88])), ("utp", pb(&[1], &[0x29])), ("rs", pb(&[1], &[0x43])), ("rcvt", pb(&[1], &[0x45])),
+        ("gpv-gfv", vec![0x0C, 0x0D]), ("sfvtpv-mdrp", pb(&[1], &[0x0E, 0xC0])), ("fliprgon", pb(&[0, 2], &[0x81])), ("odd-even", pb(&[33, 33], &[0x56, 0x57])),
+    ];
+    v.extend(simple.iter().map(|(n, b)| (n.to_string(), b.clone())));
+    v
+}
+fn setter_programs(name: &str, op: u8, nargs: u8, v: i64) -> Vec<(String, Vec<u8>)> {
+    if nargs == 1 {
+        let mut b = push_value(v);
+        b.push(op);
+        vec![(format!("{}({})", name, v), b)]
+    } else {
+        let mut out = vec![];
+        for w in [1i64, 2, 3] {
+            for first in [true, false] {
+                let mut b = if first { push_value(v) } else { push_value(w) };
+                b.extend(if first { push_value(w) } else { push_value(v) });
+                b.push(op);
+                out.push((format!("{}({},{})", name, if first { v } else { w }, if first { w } else { v }), b));
+            }
+        }
+        out
+    }
+}
+/// (font name, bytes): placement A = setter and consumer in one glyph program (one font per setter, one glyph per
+/// value x consumer); placement B = setter in prep (retained state), consumers in the glyph programs (one font per
+/// setter x value)
+fn state_family_fonts(thorough: bool) -> Vec<(String, Vec<u8>)> {
+    let consumers = state_consumers();
+    let fdef = assemble(&[AI::Fdef(0), AI::Endf]);
+    let mut out = vec![];
+    for (name, op, nargs) in STATE_SETTERS {
+        let mut glyphs = vec![GK::Simple];
+        for v in STATE_VALUES {
+            for (_, sp) in setter_programs(name, *op, *nargs, *v).into_iter().take(if thorough { 6 } else { 2 }) {
+                for (_, c) in &consumers {
+                    let mut prog = sp.clone();
+                    prog.extend_from_slice(c);
+                    glyphs.push(GK::SimpleI(prog));
+                }
+            }
+        }
+        out.push((format!("synthetic-state-{}-in-glyph", name), glyf_font(&glyphs, &[], &fdef, &[0x18], 4, 64, 2)));
+        for v in STATE_VALUES {
+            for (k, (_, sp)) in setter_programs(name, *op, *nargs, *v).into_iter().take(if thorough { 6 } else { 1 }).enumerate() {
+                let mut glyphs = vec![GK::Simple];
+                for (_, c) in &consumers {
+                    glyphs.push(GK::SimpleI(c.clone()));
+                }
+                out.push((format!("synthetic-state-{}-in-prep-v{}-{}", name, v, k), glyf_font(&glyphs, &[], &fdef, &sp, 4, 64, 2)));
+            }
+        }
+    }
+    out
+}
+/// every glyph hinted with the interpreter at several sizes / targets, pedantic and not
+fn exercise_hinted_glyphs(cx: &mut Ctx, data: &[u8]) {
+    use skrifa::instance::{LocationRef, Size};
+    use skrifa::outline::{DrawSettings, Engine, HintingInstance, HintingOptions, SmoothMode, Target};
+    use skrifa::raw::TableProvider;
+    use skrifa::MetadataProvider;
+    let Ok(font) = skrifa::FontRef::new(data) else { return };
+    let og = font.outline_glyphs();
+    let n = font.maxp().map(|m| m.num_glyphs()).unwrap_or(0) as u32;
+    let mut instances = vec![];
+    cx.group("HintingInstance::new");
+    for ppem in [12.0f32, 16.0, 20.0] {
+        for target in [Target::Mono, Target::Smooth { mode: SmoothMode::Normal, symmetric_rendering: true, preserve_linear_metrics: false }] {
+            if let Some(Ok(i)) = cx.api("HintingInstance::new", || HintingInstance::new(&og, Size::new(ppem), LocationRef::default(), HintingOptions { engine: Engine::Interpreter, target })) {
+                instances.push(i);
+            } else {
+                cx.count("state.instance_err");
+            }
+        }
+    }
+    cx.group("draw.hinted");
+    let (mut ok, mut err) = (0u64, 0u64);
+    for gid in 0..n {
+        let Some(glyph) = og.get(skrifa::GlyphId::new(gid)) else { continue };
+        for inst in &instances {
+            for ped in [false, true] {
+                match cx.api("draw.hinted", || glyph.draw(DrawSettings::hinted(inst, ped), &mut NullPen).is_ok()) {
+                    Some(true) => ok += 1,
+                    Some(false) => err += 1,
+                    None => {}
+                }
+            }
+        }
+    }
+    *cx.counters.entry("state.draw_ok".into()).or_insert(0) += ok;
+    *cx.counters.entry("state.draw_err".into()).or_insert(0) += err;
+}
+
 // ---- `name` table builder stream ----
 fn name_font(name: &[u8], with_fvar: bool) -> Vec<u8> {
     let mut hmtx = vec![];
@@ -3617,6 +3764,7 @@ enum Task {
     Big(usize),
     Name(usize),
     ColrChain(usize),
+    State(usize),
 }
 
 struct World {
@@ -3634,6 +3782,7 @@ struct World {
     bigs: Vec<(String, Vec<u8>)>,
     names: Vec<(String, Vec<u8>, bool)>,
     chains: Vec<ColrChain>,
+    states: Vec<(String, Vec<u8>)>,
     tasks: Vec<Task>,
 }
 
@@ -3713,13 +3862,17 @@ fn build_world(seed: u64, thorough: bool) -> World {
     for i in 0..chains.len() {
         tasks.push(Task::ColrChain(i));
     }
+    let states = state_family_fonts(thorough);
+    for i in 0..states.len() {
+        tasks.push(Task::State(i));
+    }
     let nim = if thorough { 60000 } else { 8000 };
     for m in 0..nim {
         for fix in 0..ift.len() {
             tasks.push(Task::Ift { fix, m });
         }
     }
-    World { seed, thorough, runs, comps, fonts, ift, f1, f2, cffs, brs, gks, bigs, names, chains, tasks }
+    World { seed, thorough, runs, comps, fonts, ift, f1, f2, cffs, brs, gks, bigs, names, chains, states, tasks }
 }
 
 fn run_task(w: &World, idx: usize, totals: &mut std::collections::BTreeMap<String, u64>, evals: &mut u64) {
@@ -3845,6 +3998,17 @@ fn run_task(w: &World, idx: usize, totals: &mut std::collections::BTreeMap<Strin
             wline(&format!("B {} {}", idx, key));
             let mut cx = Ctx { task: idx, key, counters: Default::default(), evals: 0, failures: 0, sites: vec![] };
             exercise_all_configs(&mut cx, bytes);
+            *evals += cx.evals;
+            for (k, v) in cx.counters {
+                *totals.entry(k).or_insert(0) += v;
+            }
+        }
+        Task::State(i) => {
+            let (name, bytes) = &w.states[*i];
+            let key = format!("{}:id", name);
+            wline(&format!("B {} {}", idx, key));
+            let mut cx = Ctx { task: idx, key, counters: Default::default(), evals: 0, failures: 0, sites: vec![] };
+            exercise_hinted_glyphs(&mut cx, bytes);
             *evals += cx.evals;
             for (k, v) in cx.counters {
                 *totals.entry(k).or_insert(0) += v;
